@@ -11,14 +11,26 @@ same texts. As theorems this file proves the pieces the round trip rests on:
    never a raw `"`, control character or DEL inside quotes (`ascii_quote_safe`), and the parser
    takes the text between the quotes as it is (C05 `ascii_quoted_exact`);
  * the header printer and the header fields (`header_shape`).
-`print_parse_partial`: the full theorem `parse (print m) = ([m], [], [])` for every expressible
-message needs the lexer refinement of DESIGN §6.4-L2 (token grammar) which is not completed.
-Floats: the law `parseFloat (fmtG b) = b` is a property of the library routines (Steele-White /
-shortest round trip), validated by sweep against strconv, not proved.
+**Parser half** (`print_parse_tokens`, for all inputs): the token stream the printed form of any
+number of valid messages consists of (`Sml.msgToks`: header tokens, then per item `<`, type,
+`[n]`, the printed values / quoted runs and hex codes / names / `...`, `>`, and the terminator)
+parses to exactly these messages — same name, stream, function, wait bit, direction and item
+tree; unaddressed, since the printed form does not carry the session — with no error and no
+warning. Hypotheses: the messages are valid, their items well formed with ASCII bounds that fit
+a Go int and ellipses numbered in order of appearance (what the parser itself assigns), and
+contain no float item and no error placeholder. The numbers read back by theorems of their
+own (`parseInt_intDec`, `parseUint_decDigits`, `parseInt_bin`, `parseUint_hexcode`).
+`print_parse_partial`: what is missing for `parse (print m) = ([m], [], [])` is the lexer half —
+that `lexAll (print m)` is `msgToks m` with positions — and floats: the law
+`parseFloat (fmtG b) = b` is a property of the library routines (shortest round trip),
+validated by sweep against strconv, not proved. The lexer half is checked by the kernel on the
+sample below and on every run by the correspondence of lexer and printer with the code.
 -/
 import SecsModel.Proofs.Decimal
 import SecsModel.Model.Print
 import SecsModel.Model.Parser
+import SecsModel.Proofs.PrintToks
+import SecsModel.Proofs.LexLayout
 import SecsModel.Generated.Facts
 namespace Secs.C04
 open Secs Secs.Sml Secs.Strconv
@@ -78,6 +90,37 @@ def sample : Msg :=
      (.item (.asciiVar [118] 2 5) (.item (.int 1 [.val (-128)]) (.item (.boolean [.val true])
      (.item (.binary [.val 255]) (.var [46, 46, 46, 91, 48, 93] .nil))))))),
    -1, [0, 0, 0, 0]⟩
+
+/-- **Parser half of the print → parse round trip**, for any number of messages at once. -/
+theorem print_parse_tokens (ms : List Msg)
+    (h : ∀ m ∈ ms, m.valid = true ∧
+      (m.item = .empty ∨ (m.item.wf = true ∧ cleanT m.item = true ∧ ∃ e, ellAfter 0 m.item = some e))) :
+    parseToks (ms.flatMap msgToks ++ [eofTok]) = .done (ms.map unaddressed) [] [] := by
+  apply parseToks_printed
+  intro m hm
+  obtain ⟨hv, hi⟩ := h m hm
+  refine ⟨hv, ?_⟩
+  rcases hi with he | ⟨hw, hc, e, hel⟩
+  · exact ⟨0, Or.inl ⟨he, rfl⟩⟩
+  · exact ⟨e, Or.inr ⟨hw, hc, freshT_nil m.item hw hc, hel⟩⟩
+
+/-- the printed numbers read back as themselves -/
+theorem printed_numbers_read_back :
+    (∀ (v : Int) (w : Nat), (w = 1 ∨ w = 2 ∨ w = 4 ∨ w = 8) → -((2 ^ (8 * w - 1) : Nat) : Int) ≤ v →
+        v < ((2 ^ (8 * w - 1) : Nat) : Int) → parseInt (intDec v) 0 (8 * w) = ⟨v, none⟩) ∧
+    (∀ n : Nat, n < 2 ^ 63 → parseInt ([48, 98] ++ binDigits n) 0 0 = ⟨n, none⟩) ∧
+    (∀ ch : Fin 128, parseUint ([48, 120] ++ hex2 ch.val) 0 0 = ⟨ch.val, none⟩) :=
+  ⟨fun v w hw h1 h2 => parseInt_intDec v w hw h1 h2, fun n h => parseInt_bin n h, fun ch => by
+    have := parseUint_hexcode ch; simpa [hex2] using this⟩
+
+/-- non-vacuity: the sample message meets the hypotheses of the parser half -/
+example : sample.valid = true ∧ sample.item.wf = true ∧ cleanT sample.item = true ∧
+    ellAfter 0 sample.item = some 1 := by decide +kernel
+
+/-- test, by kernel evaluation: the two halves meet on the sample — the lexer turns the printed
+form into the token stream of the parser half (positions aside) -/
+example : ((Lex.lexAll [] sample.print).map Lex.eraseT).filter (fun t => t.kind != .comment) =
+    msgToks sample ++ [eofTok] := by decide +kernel
 
 example : (match parse [] sample.print with
     | .done [m] [] [] => m.print == sample.print && m.item.vars == sample.item.vars
